@@ -1,5 +1,6 @@
 import MimeModel.Lemmas.Heap
 import MimeModel.Lemmas.HeapAbs
+import MimeModel.Lemmas.HeapBuild
 import MimeModel.Gen.Writes
 /-
   C14 at the level of pointers (Model/Heap.lean): `(*MIME).Extend` allocates a node with
@@ -70,6 +71,29 @@ theorem newMIME_rep {h : Heap α} {cs : List Ptr} {ts : List (Tree α)} {fp : Li
     ∀ x n, h[x]? = some n → ∃ n', (newMIME h a cs).1[x]? = some n' ∧ n'.info = n.info ∧
       n'.children = n.children ∧ (x ∉ cs → n' = n) ∧ (x ∈ cs → n'.parent = some h.length) :=
   HeapLemmas.newMIME_rep a hf
+
+/-- **everything composed, on the built-in tree**: after any history of `Extend` calls on tree
+    nodes the heap represents the value-level tree after the same calls, and the pointer-level
+    `match` computes `Mime.detect`'s chain on that tree -/
+theorem extended_detect (ops : List (List Nat × Info)) {h1 : Heap Info}
+    (hrun : runExt HeapBuild.builtinHeap.2 ops HeapBuild.builtinHeap.1 = some h1)
+    (ext : Ext) (x : Bytes) (lim : Nat) (leafF : Info → Info) :
+    ∃ T', C14.applyAll ops Gen.builtin = some T' ∧ Rep h1 HeapBuild.builtinHeap.2 none T' ∧
+      ∃ h' r, matchH (accepts ext (header x lim) lim) leafF h1 HeapBuild.builtinHeap.2 h1.length = .ok (h', r) ∧
+        ∀ f, (detect ext T' x lim).chain.length ≤ f →
+          parentChain h' r f = some (applyHead leafF (detect ext T' x lim).chain) :=
+  HeapBuild.extended_detect ops hrun ext x lim leafF
+
+/-- … and a result handed out then reads the same after whatever `Extend` and detection calls follow -/
+theorem builtin_result_stable (ops : List (List Nat × Info)) {h1 h2 h3 : Heap Info} {r : Ptr}
+    (hrun : runExt HeapBuild.builtinHeap.2 ops HeapBuild.builtinHeap.1 = some h1)
+    (ext : Ext) (x : Bytes) (lim : Nat) (leafF : Info → Info)
+    (hm : matchH (accepts ext (header x lim) lim) leafF h1 HeapBuild.builtinHeap.2 h1.length = .ok (h2, r))
+    (hs : Steps h2 h3) :
+    ∃ T', C14.applyAll ops Gen.builtin = some T' ∧
+      ∀ f, (detect ext T' x lim).chain.length ≤ f →
+        parentChain h3 r f = some (applyHead leafF (detect ext T' x lim).chain) :=
+  HeapBuild.builtin_result_stable ops hrun ext x lim leafF hm hs
 
 /-- **regenerated tie: the stores of mime.go are the stores of the heap model** — every assignment
     to a field of a `MIME` node and every `MIME` composite literal of the package, per function, as
